@@ -726,6 +726,22 @@ func c04ClusterRun(rep *kit.Report, idx int, seed uint64, minISR int) {
 		if hw := lp.log.HighWatermark(); hw < a.Offset {
 			fail("C04:all-acked-before-commit", fmt.Sprintf("ALL-policy ack for %s at offset %d received while the leader HW is %d", m.Tag, a.Offset, hw))
 		}
+		// Every member of the leader's ISR, free-running ones included, holds
+		// exactly this message at the acked offset (c04_content_test.go).
+		isr := lp.GetISR()
+		if fp, what, _ := c04JudgeAllAck(isr, ln.ID, func(id string) *partition {
+			if n := c.Nodes[id]; n != nil {
+				return n.Partition(stream, 0)
+			}
+			return nil
+		}, func(id string) bool {
+			gmu.Lock()
+			defer gmu.Unlock()
+			return gates[id] != nil && parked[id]
+		}, m.Tag, a.Offset); fp != "" {
+			fail(fp, what)
+		}
+		rep.Count("isr_members_read_at_all_ack_receipt", int64(len(isr)))
 	}
 	pub, err := c04NewPub(c.URL, onAck)
 	if err != nil {
@@ -948,6 +964,13 @@ func c04ClusterRun(rep *kit.Report, idx int, seed uint64, minISR int) {
 		if m.Policy == client.AckPolicy_NONE && len(acks) > 0 {
 			fail("C04:none-acked", fmt.Sprintf("message %s with policy NONE was acked", m.Tag))
 		}
+	}
+	// quiescence: gates open, ISR complete again per leader and controller, all
+	// log ends equal: every ISR member holds every ALL-acked message
+	if qn, isr, ok := c04Quiescent(c, stream, 3, 40*time.Second); ok && qn.ID == ln.ID {
+		rep.Count("quiescent_member_ack_pairs_compared", int64(c04JudgeQuiescent(c, stream, qn, isr, c04PositiveAllAcks(pub), fail)))
+	} else {
+		inconc("partition did not become quiet at the end of the scenario")
 	}
 	rep.Eval()
 	rep.Count("cluster_positive_acks", int64(pos))
